@@ -152,32 +152,7 @@ def run(ctx) -> Result:
                   bad_detail=(f"before={bad[0]} tied={bad[1]} after={bad[2]}: returns {bad[3]}, expected {bad[4]} "
                               f"(-1 before pivot, 0 tied, 1 after)") if bad else "")
 
-    # ------------------------------------------------------------------ V3
-    bad = None
-    n = 0
-    elems = ["p", "a", "b", "c"]
-    for pivot_idx in (0, 2):
-        order = elems[pivot_idx:] + elems[:pivot_idx]
-        for signs in itertools.product((-2, 0, 3), repeat=3):
-            n += 1
-            sign_of = dict(zip([e for e in elems if e != "p"], signs))
-            got = _eval_kwik(ks, order, sign_of)
-            before = [e for e in order if e != "p" and sign_of[e] < 0]
-            same = ["p"] + [e for e in order if e != "p" and sign_of[e] == 0]
-            after = [e for e in order if e != "p" and sign_of[e] > 0]
-            want = []
-            if before:
-                want.append(("bucket", before) if len(before) == 1 else ("rec", before))
-            want.append(("bucket", same))
-            if after:
-                want.append(("bucket", after) if len(after) == 1 else ("rec", after))
-            norm_got = [(k, sorted(v) if k == "bucket" else sorted(v)) for k, v in got]
-            norm_want = [(k, sorted(v)) for k, v in want]
-            if norm_got != norm_want and bad is None:
-                bad = (order, sign_of, got, want)
-    res.check(bad is None, "V3", "_kwik_sort:partition-and-emission", ks.loc(),
-              ok_detail=f"{n} worlds: negative before the pivot's bucket, zero inside it, positive after, each once",
-              bad_detail=(f"remaining={bad[0]} signs={bad[1]}: emitted {bad[2]}, expected {bad[3]}") if bad else "")
+    check_emission(res, proj, "V3")
 
     # ------------------------------------------------------------------ V4
     body = piv.body_without_docstring()
@@ -223,6 +198,43 @@ def run(ctx) -> Result:
     res.not_decided.append("the implication 'coherent pairwise preferences => same ranking for every pivot sequence' "
                            "(mathematics over V1-V4, not code shape)")
     return res
+
+
+def run_v3_only(res: Result, proj):
+    check_emission(res, proj, "V3")
+
+
+def check_emission(res: Result, proj, rule: str):
+    absc = proj.cls(MOD_ABS, "KwikSortAbs")
+    ks = proj.method(absc, "_kwik_sort")
+    res.saw(ks)
+    # ------------------------------------------------------------------ V3
+    bad = None
+    n = 0
+    elems = ["p", "a", "b", "c"]
+    for pivot_idx in (0, 2):
+        order = elems[pivot_idx:] + elems[:pivot_idx]
+        for signs in itertools.product((-2, 0, 3), repeat=3):
+            n += 1
+            sign_of = dict(zip([e for e in elems if e != "p"], signs))
+            got = _eval_kwik(ks, order, sign_of)
+            before = [e for e in order if e != "p" and sign_of[e] < 0]
+            same = ["p"] + [e for e in order if e != "p" and sign_of[e] == 0]
+            after = [e for e in order if e != "p" and sign_of[e] > 0]
+            want = []
+            if before:
+                want.append(("bucket", before) if len(before) == 1 else ("rec", before))
+            want.append(("bucket", same))
+            if after:
+                want.append(("bucket", after) if len(after) == 1 else ("rec", after))
+            norm_got = [(k, sorted(v) if k == "bucket" else sorted(v)) for k, v in got]
+            norm_want = [(k, sorted(v)) for k, v in want]
+            if norm_got != norm_want and bad is None:
+                bad = (order, sign_of, got, want)
+    res.check(bad is None, rule, "_kwik_sort:partition-and-emission", ks.loc(),
+              ok_detail=f"{n} worlds: negative before the pivot's bucket, zero inside it, positive after, each once",
+              bad_detail=(f"remaining={bad[0]} signs={bad[1]}: emitted {bad[2]}, expected {bad[3]}") if bad else "")
+
 
 
 def _eval_kwik(ks, remaining: List[str], sign_of) -> List:
